@@ -163,6 +163,8 @@ type loopTable struct {
 	Sync     []int     `json:"sync"` // synchronize() from each position
 	Entries  []epResult `json:"entries"`
 	Strict   epResult  `json:"strict_parse"`
+	StrictCtx epResult `json:"strict_ctx"`
+	StrictPos epResult `json:"strict_pos"`
 }
 
 type psEntry struct {
@@ -191,11 +193,16 @@ func buildLoopTable(sql string, maxTok int) loopTable {
 	mt, err := tk.Tokenize([]byte(sql))
 	if err != nil {
 		lt.TokErr = infoOf(err).Code
+		if lt.TokErr == "" {
+			lt.TokErr = "unstructured"
+		}
+		lt.Entries = allEntryPoints(sql)
 		return lt
 	}
 	toks, err := parser.VerifConvertModelTokens(mt)
 	if err != nil {
 		lt.TokErr = "convert:" + infoOf(err).Code
+		lt.Entries = allEntryPoints(sql)
 		return lt
 	}
 	lt.NTok = len(toks)
@@ -237,24 +244,35 @@ func buildLoopTable(sql string, maxTok int) loopTable {
 		lt.Sync = append(lt.Sync, sp.VerifSynchronize(cp, p))
 	}
 	lt.Entries = allEntryPoints(sql)
-	// strict-mode Parse
-	{
-		r := epResult{Name: "Parser.Parse(strict)"}
+	// strict-mode variants of the three Parser methods
+	strictRun := func(name string, f func(p *parser.Parser, cp []token.Token) (*ast.AST, error)) epResult {
+		r := epResult{Name: name}
 		var a *ast.AST
 		var err error
 		r.Panic = guarded(func() {
 			p := parser.NewParser(parser.WithStrictMode())
 			cp := make([]token.Token, len(toks))
 			copy(cp, toks)
-			a, err = p.Parse(cp)
+			a, err = f(p, cp)
 		})
 		r.Accepted = err == nil && r.Panic == ""
 		r.Err = infoOf(err)
 		if r.Accepted {
 			r.Trees = astHashes(a)
 		}
-		lt.Strict = r
+		return r
 	}
+	lt.Strict = strictRun("Parser.Parse(strict)", func(p *parser.Parser, cp []token.Token) (*ast.AST, error) { return p.Parse(cp) })
+	lt.StrictCtx = strictRun("Parser.ParseContext(strict)", func(p *parser.Parser, cp []token.Token) (*ast.AST, error) {
+		return p.ParseContext(context.Background(), cp)
+	})
+	lt.StrictPos = strictRun("Parser.ParseWithPositions(strict)", func(p *parser.Parser, cp []token.Token) (*ast.AST, error) {
+		cr, err := parser.VerifConvertModelTokensWithPositions(mt)
+		if err != nil {
+			return nil, err
+		}
+		return p.ParseWithPositions(cr)
+	})
 	return lt
 }
 
@@ -332,6 +350,59 @@ func init() {
 			emitJSON(map[string]interface{}{"queries": in.Queries, "singles": singles,
 				"multi_ok": perr == nil, "multi_code": infoOf(perr).Code, "multi_msg": pmsg, "multi_trees": mtrees,
 				"vmulti_ok": verr == nil, "vmulti_code": infoOf(verr).Code, "vmulti_msg": vmsg})
+		}
+		return 0
+	}
+}
+
+// recseg: stdin JSON lines {"segs":[...]}: the segments joined by ";\n" through recovery parsing and strict
+// parsing, and each segment alone through strict parsing (C12 oracle: trees of the well-formed segments in order,
+// one error per malformed segment, each error's token inside its own segment).
+func init() {
+	subcmds["recseg"] = func(args []string) int {
+		sc := bufio.NewScanner(os.Stdin)
+		sc.Buffer(make([]byte, 1<<20), 64<<20)
+		for sc.Scan() {
+			var in struct {
+				Segs []string `json:"segs"`
+			}
+			if json.Unmarshal(sc.Bytes(), &in) != nil {
+				continue
+			}
+			type segRes struct {
+				Accepted bool     `json:"accepted"`
+				Code     string   `json:"code"`
+				Trees    []string `json:"trees"`
+				NTok     int      `json:"ntok"` // converted tokens without EOF; -1 if the segment does not tokenize
+			}
+			var segs []segRes
+			whole := ""
+			for i, s := range in.Segs {
+				a, err := gosqlx.Parse(s)
+				sr := segRes{Accepted: err == nil, Code: infoOf(err).Code, Trees: astHashes(a), NTok: -1}
+				tk, _ := tokenizer.New()
+				if mt, terr := tk.Tokenize([]byte(s)); terr == nil {
+					if ct, cerr := parser.VerifConvertModelTokens(mt); cerr == nil {
+						n := len(ct)
+						if n > 0 && ct[n-1].Type == models.TokenTypeEOF {
+							n--
+						}
+						sr.NTok = n
+					}
+				}
+				segs = append(segs, sr)
+				if i > 0 {
+					whole += ";\n"
+				}
+				whole += s
+			}
+			var stmts []ast.Statement
+			var errs []error
+			pn := guarded(func() { stmts, errs = gosqlx.ParseWithRecovery(whole) })
+			wa, werr := gosqlx.Parse(whole)
+			emitJSON(map[string]interface{}{"segs": in.Segs, "seg_results": segs, "whole": whole,
+				"rec_trees": stmtHashes(stmts), "rec_errs": recErrsOf(errs), "rec_panic": pn,
+				"strict_ok": werr == nil, "strict_code": infoOf(werr).Code, "strict_trees": astHashes(wa)})
 		}
 		return 0
 	}
